@@ -9,7 +9,11 @@ COQ_TARGETS = ['Props/C03.vo', 'Run/RunC03.vo']
 PROPS_MODULE = 'Props.C03'
 THEOREMS = ['cost_bound', 'cost_bound_sp', 'prim_ticks_bound', 'ticks_bound_scroll', 'tick_version_same_state', 'fixed_arms_only', 'sp_arms_only',
             'rep_linear', 'rep_refuted', 'hexmacro_refuted', 'macro_recursion_refuted', 'sixel_repeat_linear', 'sixel_raster_refuted',
-            'avatar_repeat_bound', 'glyph_iters_bound', 'window_ticks_bound']
+            'avatar_repeat_bound', 'glyph_iters_bound', 'window_ticks_bound',
+            # extension (a): allocation
+            'alloc_version_same_state', 'alloc_counts_growth', 'alloc_dominates', 'alloc_bound', 'alloc_bound_state', 'alloc_bound_sp', 'alloc_bound_dollar',
+            # extension (b): weighted iteration totals, rectangle clip
+            'ticks_bound', 'ticks_bound_sp', 'rect_clip', 'ticks_bound_dollar', 'ticks_bound_rqcra', 'dollar_arms_only', 'rqcra_arm_only']
 SWEEP_LEMMAS = []
 TRUSTED = ['Coq 8.16.1 kernel + vm_compute (model evaluation in stage C); no axioms (Print Assumptions: closed)',
            'Model/Cost.v re-states the loops of Model/TermCore.v / AnsiTok.v with counters (tick_version_same_state: same state); the arms changed by the '
@@ -547,7 +551,10 @@ def search(ctx, broken):
 
 # ---- stage C -----------------------------------------------------------------------------------------------------------------------
 MODELLED = [('', 'S'), ('', 'T'), ('', '@'), ('', 'P'), ('', 'L'), ('', 'M'), ('', 'Y'), ('', 'Z'), ('', 'A'), ('', 'k'), ('', 'b'), (' ', '@'), (' ', 'A'),
-            ('', 'X'), ('', 'J'), ('', 'K'), ('', 'B'), ('', 'C'), ('', 'D'), ('', 'H'), ('', 'm'), ('', 'd'), ('', 'e'), ('', 'E'), ('', 'F'), ('', 'G')]
+            ('', 'X'), ('', 'J'), ('', 'K'), ('', 'B'), ('', 'C'), ('', 'D'), ('', 'H'), ('', 'm'), ('', 'd'), ('', 'e'), ('', 'E'), ('', 'F'), ('', 'G'),
+            # extension: rectangular-area operations (ticks = clipped rectangle), DECRQCRA, window resize, insert/delete key
+            ('$', 'x'), ('$', 'z'), ('$', '{'), ('*', 'y'), ('', 't'), ('', '~')]
+RECT = {('$', 'x'): 5, ('$', 'z'): 4, ('$', '{'): 4, ('*', 'y'): 6}
 STATE_IDENTICAL = [('', 'S'), ('', 'T'), ('', 'P'), ('', 'Y'), ('', 'Z'), ('', 'A'), (' ', '@'), (' ', 'A')]
 
 def c_setups(w, h):
@@ -632,10 +639,22 @@ def correspondence(ctx):
     while len(meta) < n:
         inter, final = rng.choice(MODELLED)
         w, h = rng.choice(sizes)
+        # the model's scrolls walk lists cell by cell (and the threaded allocation counter walks them again): 2^31-1 scrolls on 132 x 60 take minutes
+        if (w, h) == (132, 60) and ((inter, final) in ((' ', '@'), (' ', 'A')) or (inter == '' and final in 'STAkbB')): w, h = 40, 24
         pre = rng.choice(c_setups(w, h))
         vals = [0, 1, 2, h - 1, h, h + 1, w - 1, w, w + 1, w * h, 200, 3000, 65536, 1000000, 2147483647]
         k = rng.choice([0, 1, 1, 1, 2])
         t = tuple(rng.choice(vals) for _ in range(k))
+        if (inter, final) in RECT:          # the rectangle functions want 4 / 5 / 6 parameters (sometimes one too few / too many)
+            k = RECT[(inter, final)] + rng.choice([0, 0, 0, 0, 0, -1, 1])
+            rv = [0, 1, 2, h - 1, h, h + 1, w - 1, w, w + 1, 200, 99999, 2147483647]
+            t = tuple(rng.choice(rv) for _ in range(k))
+            if final == 'x' and t and rng.random() < 0.8: t = (rng.choice([32, 65, 0x2588, 0xD800, 1114112]),) + t[1:]
+            if final == 'y' and len(t) == 6 and rng.random() < 0.6:        # a valid rectangle inside the text area
+                a, b = sorted([rng.randint(0, h), rng.randint(0, h)]); c, d = sorted([rng.randint(0, w), rng.randint(0, w)])
+                t = (1, 1, a, c, b, d)
+        if (inter, final) == ('', 't'): t = (8, rng.choice(vals), rng.choice(vals)) if rng.random() < 0.8 else t
+        if (inter, final) == ('', '~'): t = (rng.choice([1, 2, 2, 3, 4, 5, 7]),)
         if final == 'b' and t and t[0] > 3000: t = (rng.choice([0, 1, w, w * h, 3000]),) + t[1:]
         meta.append((inter, final, w, h, pre, csi(inter, final, t), t))
     cases = ['seq 0 %d %d %s %s' % (w, h, hx(pre), hx(seq)) for _, _, w, h, pre, seq, _ in meta]
@@ -663,7 +682,7 @@ def correspondence(ctx):
     model_st = model[len(model) - len(st_exprs):]
     tref = min([r[1][0] for r in impl[-3:] if r and r[0] == 'ok'] or [20000])
     per_tick = max(0.05, tref / 20000.0)          # microseconds per printed character in this run
-    dis = []; nontriv = set(); ratios = []; outliers = 0; dist = {}
+    dis = []; nontriv = set(); ratios = []; outliers = 0; dist = {}; bound_margin = []
     for i, (c, r, m, me) in enumerate(zip(cases, impl, model, meta)):
         name = fn_name(me[0], me[1]); dist[name] = dist.get(name, 0) + 1
         if m is None:
@@ -676,7 +695,8 @@ def correspondence(ctx):
         v = r[1]
         if m[0] < 0:
             dis.append({'case': c, 'impl': v, 'model': m, 'what': 'model panics/diverges, implementation returns'}); continue
-        cls, it, tk, al, mrows0, mrows, mcells0, mcells, mbh, mlh, mcx, mcy, mmax, mhash, mtw, mth = m
+        cls, it, tk, al, mrows0, mrows, mcells0, mcells, mbh, mlh, mcx, mcy, mmax, mhash, mtw, mth = m[:16]
+        ta, mscr = m[16], m[17]          # threaded allocation counter (Model/Alloc.v), screen measure of the state before the sequence
         state_impl = [1 if v[10] else 0, v[1], v[2], v[3], v[4], v[5], v[6], v[7], v[8], v[9], v[13], v[15], v[16]]
         state_model = [cls, mrows0, mrows, mcells0, mcells, mbh, mlh, mcx, mcy, mmax, mhash, mtw, mth]
         if state_impl != state_model:
@@ -684,6 +704,15 @@ def correspondence(ctx):
         grown = max(0, v[2] - v[1]) + max(0, v[4] - v[3])
         if grown > al:
             dis.append({'case': c, 'impl': grown, 'model': al, 'what': 'rows+cells allocated exceed the model alloc counter'}); continue
+        if grown > ta or al > ta:
+            dis.append({'case': c, 'impl': grown, 'model': [al, ta], 'what': 'rows+cells allocated exceed the THREADED allocation counter (alloc_dominates)'}); continue
+        # instances of alloc_bound / ticks_bound (every set-up of this stage satisfies the C09 invariant; REP is the known class)
+        if me[1] != 'b':
+            nb = len(me[5])
+            if ta > 8 * (nb + 1) * mscr or tk > 8 * (nb + 1) * mscr * mscr:
+                dis.append({'case': c, 'impl': [grown, v[0]], 'model': [ta, tk, mscr],
+                            'what': 'the model counters exceed the proved bounds 8(n+1)scr / 8(n+1)scr^2: the theorem does not speak about this model state'}); continue
+            bound_margin.append(ta / float(8 * (nb + 1) * mscr))
         budget = 50 * per_tick * tk + 50000
         ratios.append(v[0] / max(1.0, per_tick * tk))
         if v[0] > budget:
@@ -725,7 +754,8 @@ def correspondence(ctx):
             'distribution': {'per_control_function': dist, 'calibration_us_per_tick': round(per_tick, 4),
                              'time_over_model_ratio_median': round(ratios[len(ratios) // 2], 3) if ratios else None,
                              'time_over_model_ratio_max': round(ratios[-1], 3) if ratios else None,
-                             'cases_over_50x_budget(reported only)': outliers, 'clamped_vs_unclamped_model_cases': len(old),
+                             'cases_over_50x_budget(reported only)': outliers,
+                             'threaded_alloc_over_bound_max': round(max(bound_margin), 4) if bound_margin else None, 'clamped_vs_unclamped_model_cases': len(old),
                              'model_errors': getattr(ctx, 'model_errors', [])[:2]},
             'samples': [cases[0][:200], cases[len(cases) // 2][:200]]}
 
